@@ -204,6 +204,7 @@ type Config struct {
 	StepCap       int
 	PreemptPct    int  // probability (percent) of not continuing the last task at a choice point
 	LockYield     bool // mutex lock attempts are scheduling points
+	UnlockYield   bool // the instant after a mutex unlock is a scheduling point (narrowed critical sections)
 	AtomicYield   bool // atomic operations are scheduling points
 	MaxSimTime    time.Duration
 	NoChoiceKinds [NCustom + 1]bool
